@@ -2,6 +2,7 @@
 mod c02;
 mod c15;
 mod c17;
+mod c19;
 mod c20;
 pub mod oracle;
 pub mod scenario;
@@ -18,6 +19,9 @@ fn main() {
     let mut rep = Report::new(&prop.to_uppercase(), args.seed());
     match prop.as_str() {
         "c02" => c02::run(&args, &mut rep),
+        "c01" => c02::run_leg(&args, &mut rep, "C01"),
+        "c07" => c02::run_leg(&args, &mut rep, "C07"),
+        "c19" => c19::run(&args, &mut rep),
         "c15" => c15::run(&args, &mut rep),
         "c17" => c17::run(&args, &mut rep),
         "c20" => c20::run(&args, &mut rep),
